@@ -99,7 +99,7 @@ func (d *zzvDag) RemoveMany(ctx context.Context, cs []cid.Cid) error { return ni
 
 type zzvM struct {
 	dir   bool
-	file  byte   // content id of a file (its single data byte)
+	data  []byte // content of a file
 	mode  uint32 // permission bits, 0 = none stored
 	mtime int64  // modification time (Unix seconds), 0 = none stored
 	names []string
@@ -130,7 +130,17 @@ func zzvStatOf(mode os.FileMode, err1 error, mt time.Time, err2 error) string {
 }
 
 func zzvMDir() *zzvM          { return &zzvM{dir: true} }
-func zzvMFile(id byte) *zzvM { return &zzvM{file: id} }
+func zzvMFile(id byte) *zzvM { return &zzvM{data: []byte{id}} }
+
+// zzvHex renders file content, e.g. "#0142".
+func zzvHex(b string) string {
+	const digits = "0123456789abcdef"
+	out := []byte{'#'}
+	for i := 0; i < len(b); i++ {
+		out = append(out, digits[b[i]>>4], digits[b[i]&15])
+	}
+	return string(out)
+}
 
 func (m *zzvM) get(name string) *zzvM {
 	for i, n := range m.names {
@@ -163,7 +173,7 @@ func (m *zzvM) del(name string) {
 }
 
 func (m *zzvM) clone() *zzvM {
-	c := &zzvM{dir: m.dir, file: m.file, mode: m.mode, mtime: m.mtime}
+	c := &zzvM{dir: m.dir, data: append([]byte(nil), m.data...), mode: m.mode, mtime: m.mtime}
 	for i := range m.names {
 		c.names = append(c.names, m.names[i])
 		c.kids = append(c.kids, m.kids[i].clone())
@@ -196,7 +206,7 @@ func (m *zzvM) walk(parts []string) *zzvM {
 // render: canonical text of a tree, e.g. "{a:{d:{x:#1}} b:{}}".
 func (m *zzvM) render() string {
 	if !m.dir {
-		return "#" + string(rune('0'+m.file)) + zzvStat(m.mode, m.mtime)
+		return zzvHex(string(m.data)) + zzvStat(m.mode, m.mtime)
 	}
 	idx := make([]int, len(m.names))
 	for i := range idx {
@@ -409,6 +419,7 @@ func zzvNewFS() *zzvFS {
 		os.ErrExist = iofs.ErrExist
 	}
 	fs := &zzvFS{ds: &zzvDag{}}
+	zzvCurDS = fs.ds
 	r, err := NewEmptyRoot(context.Background(), fs.ds, fs.publish, nil)
 	if err != nil {
 		panic(err)
@@ -429,7 +440,7 @@ func (fs *zzvFS) build(m *zzvM, prefix string) {
 				panic(err)
 			}
 			fs.build(m.kids[i], p)
-		} else if err := PutNode(fs.root, p, zzvFileNode(m.kids[i].file)); err != nil {
+		} else if err := PutNode(fs.root, p, zzvFileNode(m.kids[i].data[0])); err != nil {
 			panic(err)
 		}
 	}
@@ -440,16 +451,15 @@ func (fs *zzvFS) viaAPI() string {
 	return zzvRenderDir(fs.root.GetDirectory())
 }
 
+// zzvCurDS: the DAG service of the current scenario (file contents are read through the UnixFS reader).
+var zzvCurDS ipld.DAGService
+
 func zzvFileID(nd ipld.Node) string {
-	pn, ok := nd.(*dag.ProtoNode)
-	if !ok {
-		return "#raw"
+	s, err := zzvReadNode(zzvCurDS, nd)
+	if err != nil {
+		return "#!read"
 	}
-	fsn, err := ft.FSNodeFromBytes(pn.Data())
-	if err != nil || fsn.Type() != ft.TFile || len(fsn.Data()) != 1 {
-		return "#?"
-	}
-	return "#" + string(rune('0'+fsn.Data()[0]))
+	return zzvHex(s)
 }
 
 func zzvRenderDir(d *Directory) string {
@@ -576,6 +586,7 @@ const (
 	zzvKChmod
 	zzvKTouch
 	zzvKWrite
+	zzvKFd
 	zzvKinds
 )
 
@@ -697,9 +708,32 @@ func zzvStep(fs *zzvFS, m *zzvM) {
 			}
 		}
 		if want {
-			nd.file = 9
+			if len(nd.data) == 0 {
+				nd.data = []byte{0}
+			}
+			nd.data[0] = 9
 		}
 		verifrt.Assert("C19.write-result-matches-model", (err == nil) == want)
+	}
+	if kind == zzvKFd {
+		// a write descriptor driven through FD steps of WriteAt / Truncate / Flush, then closed
+		nd := m.walk(zzvParts(p))
+		want = nd != nil && !nd.dir
+		verifrt.Assume(nd == nil || nd.mtime == 0)
+		var n FSNode
+		n, err = Lookup(fs.root, p)
+		f, isFile := n.(*File)
+		if err == nil && isFile {
+			var fd FileDescriptor
+			fd, err = f.Open(context.Background(), Flags{Read: true, Write: true, Sync: true})
+			if err == nil {
+				view := zzvFdScript("C19", f, fs.ds, fd, verifrt.Param("FD", 2))
+				err = fd.Close()
+				nd.data = []byte(view)
+				verifrt.Assert("C19.closed-write-visible", zzvFileShows(f, fs.ds) == view)
+			}
+		}
+		verifrt.Assert("C19.fd-script-result-matches-model", (err == nil && isFile) == want)
 	}
 	if !want {
 		verifrt.Assert("C19.failed-operation-leaves-model-unchanged", m.render() == before)
